@@ -41,9 +41,21 @@ def engine_factory(name: str):
 
 # property -> list of (engine, quick runs, thorough runs)
 PLAN: dict[str, list[tuple[str, int, int]]] = {
-    'C07': [('storesim', 6000, 60000)],
-    'C08': [('storesim', 6000, 60000)],
-    'C19': [('storesim', 2000, 20000)],
+    'C07': [('storesim', 5000, 50000), ('docsim', 600, 8000)],
+    'C08': [('storesim', 4000, 40000), ('docsim', 1200, 15000)],
+    'C19': [('docsim', 2500, 30000), ('storesim', 1500, 15000)],
+    'C02': [('docsim', 3000, 40000)],
+    'C03': [('docsim', 3000, 40000)],
+    'C04': [('docsim', 3000, 40000)],
+    'C05': [('docsim', 3000, 40000)],
+    'C06': [('docsim', 2500, 30000)],
+    'C09': [('docsim', 2500, 30000)],
+    'C10': [('docsim', 3000, 40000)],
+    'C11': [('docsim', 3000, 40000)],
+    'C14': [('docsim', 3000, 40000)],
+    'C17': [('docsim', 3000, 40000)],
+    'C18': [('docsim', 3000, 40000)],
+    'C20': [('docsim', 2500, 30000)],
 }
 
 LEVEL = collections.defaultdict(lambda: 'exploration', {'C16': 'fault_enumeration', 'C19': 'fault_enumeration'})
